@@ -435,6 +435,26 @@ def run(ctx):
                     okv = p.has_call(Q + "block::Literal::new")
                 else:
                     want, okv = None, False
+                # what is looked up and what is written are the field's own name and value, untouched: the static table is matched
+                # byte for byte (a name that only matches after case folding must go out as a literal, or the peer decodes another name)
+                item = None
+                for e in p.calls(Q + "static_::StaticTable::find"):
+                    item = e[3][0]
+                flows = True
+                if item is not None:
+                    it_ = pa.vfmt(item)
+                    for e in p.calls(Q + "static_::StaticTable::find_name"):
+                        flows = flows and pa.vfmt(e[3][0]) == it_ + ".name"
+                    for e in p.calls(Q + "block::LiteralWithNameRef::new_static"):
+                        flows = flows and (it_ + ".value") in pa.vfmt(e[3][-1]) and not expr.mentions(
+                            e[3][-1], lambda v: v[0] == "call" and pa.short(v[1]) not in ("clone", "into", "from", "as_ref", "deref", "next"))
+                    for e in p.calls(Q + "block::Literal::new"):
+                        flows = flows and [pa.vfmt(a) for a in e[3]] == [it_ + ".name", it_ + ".value"]
+                else:
+                    flows = False
+                ctx.check(flows, "C11-f", es.key, "lookups and literals use the field's own name and value (%s/%s)" % (found, foundn),
+                          "the stateless encoder looks up or writes something other than the field's own bytes: %s" %
+                          [(e[2].cname, [pa.vfmt(a)[:60] for a in e[3]]) for e in p.calls("StaticTable::find", "StaticTable::find_name", "new_static", "Literal::new")], "", None, p.describe())
                 ctx.check(writes == want and okv, "C11-f", es.key, "find=%s find_name=%s -> %s" % (found, foundn, want),
                           "for find=%s find_name=%s the encoder writes %s, expected %s (static variant)" % (found, foundn, writes, want),
                           str(writes), None, p.describe())
